@@ -102,3 +102,22 @@ Lemma blocked_sub_close_example :
   | None => false
   end = true.
 Proof. vm_compute. reflexivity. Qed.
+
+(** D16: a handler that was added but never started (AddHandler after Run without RunHandlers, or
+    a router that was never run) is counted by handlersWg for ever: Close can only time out
+    although nothing runs, nothing is blocked and the context was not cancelled *)
+Definition d16_schedule : list label := [LCall 0; LClose 0; LClose 0; LClose 0; LRun; LRun].
+Lemma d16_witness :
+  match replay (init_u 0 1 ignore_ctx true true true false) d16_schedule with
+  | Some s => match cp s 0 with CWait => true | _ => false end && negb (early_cancel s) &&
+              negb (handler_running_b s) && match sys_enabled s 1 with [] => true | _ => false end
+  | None => false
+  end = true.
+Proof. vm_compute. reflexivity. Qed.
+Lemma d16_fixed_returns_nil :
+  match replay (init_u 0 1 ignore_ctx true true true true)
+               (d16_schedule ++ [LW1; LW2; LW2; LW2; LWaitDone 0; LClose 0; LClose 0; LRun]) with
+  | Some s => returned s 0 RNil && match run s with RDone => true | _ => false end
+  | None => false
+  end = true.
+Proof. vm_compute. reflexivity. Qed.
